@@ -217,10 +217,11 @@ fn balanced_k_means_iter<const D: usize>(
     // Compute new centers from the load balance routine assignments output
     let new_centers = center_ids
         .par_iter()
+        .zip(centers.par_iter())
         // map each center id to the new center point
         // we cannot just compute the centers fron the assignments
         // because the new centers have to be in the same order as the old ones
-        .map(|center_id| {
+        .map(|(center_id, old_center)| {
             let points = assignments
                 .par_iter()
                 .cloned()
@@ -228,6 +229,10 @@ fn balanced_k_means_iter<const D: usize>(
                 .filter(|(assignment, _)| *assignment == *center_id)
                 .map(|(_, point)| point)
                 .collect::<Vec<_>>();
+            if points.is_empty() {
+                // The cluster lost all its points, keep its center in place.
+                return *old_center;
+            }
             geometry::center(&points)
         })
         .collect::<Vec<_>>();
@@ -419,7 +424,8 @@ fn assign_and_balance<const D: usize>(
         // Compute new centers from new assigments
         let new_centers = center_ids
             .par_iter()
-            .map(|center_id| {
+            .zip(centers.par_iter())
+            .map(|(center_id, old_center)| {
                 let points = assignments
                     .par_iter()
                     .cloned()
@@ -427,6 +433,10 @@ fn assign_and_balance<const D: usize>(
                     .filter(|(assignment, _)| *assignment == *center_id)
                     .map(|(_, point)| point)
                     .collect::<Vec<_>>();
+                if points.is_empty() {
+                    // The cluster lost all its points, keep its center in place.
+                    return *old_center;
+                }
                 geometry::center(&points)
             })
             .collect::<Vec<_>>();
